@@ -35,6 +35,15 @@ import (
 // RunUDPAssociateLoop exchanges socks5 UDP packets between a socks5 proxy client and a mieru proxy server,
 // the proxy server is connected via the PacketOverStreamTunnel.
 func RunUDPAssociateLoop(udpConn *net.UDPConn, conn *apicommon.PacketOverStreamTunnel, resolver apicommon.DNSResolver) error {
+	return runUDPAssociateLoop(udpConn, conn, resolver, nil)
+}
+
+// datagramFilter reports whether a datagram of a UDP association may be sent
+// to the destination given in socks5 address encoding (address type, address, port).
+// A nil filter allows every destination.
+type datagramFilter func(dst []byte) bool
+
+func runUDPAssociateLoop(udpConn *net.UDPConn, conn *apicommon.PacketOverStreamTunnel, resolver apicommon.DNSResolver, filter datagramFilter) error {
 	var udpErr atomic.Value
 
 	// addrMap maps the UDPAddr in string to the bytes in UDP associate header.
@@ -62,6 +71,11 @@ func RunUDPAssociateLoop(udpConn *net.UDPConn, conn *apicommon.PacketOverStreamT
 				udpErr.Store(err)
 				UDPAssociateErrors.Add(1)
 				return
+			}
+			if filter != nil && !filter(datagram.Header[3:]) {
+				log.Debugf("UDP associate %v dropped packet to %v: rejected by egress rules", udpConn.LocalAddr(), datagram.Addr)
+				RejectByRules.Add(1)
+				continue
 			}
 			dstAddr, err := resolveSocks5UDPAddr(context.Background(), resolver, datagram.Addr)
 			if err != nil {
@@ -211,7 +225,7 @@ func RunUDPForwardingLoop(udpConn *net.UDPConn, conn *apicommon.PacketOverStream
 // runUDPAssociateDatagramLoop exchanges RFC 1928 SOCKS5 UDP datagrams between
 // a SOCKS5 proxy client and UDP destinations until the TCP control connection
 // is closed.
-func runUDPAssociateDatagramLoop(udpConn *net.UDPConn, ctrlConn net.Conn, resolver apicommon.DNSResolver) error {
+func runUDPAssociateDatagramLoop(udpConn *net.UDPConn, ctrlConn net.Conn, resolver apicommon.DNSResolver, filter datagramFilter) error {
 	if resolver == nil {
 		resolver = &net.Resolver{}
 	}
@@ -242,7 +256,7 @@ func runUDPAssociateDatagramLoop(udpConn *net.UDPConn, ctrlConn net.Conn, resolv
 		}
 
 		if clientAddr == nil || sameUDPAddr(addr, clientAddr) {
-			dstAddr, payload, err := parseUDPAssociateDatagram(buf[:n], resolver)
+			dstAddr, payload, err := parseUDPAssociateDatagramFiltered(buf[:n], resolver, filter)
 			if err != nil {
 				log.Debugf("UDP datagram relay %v dropped invalid packet from %v: %v", udpConn.LocalAddr(), addr, err)
 				UDPAssociateErrors.Add(1)
@@ -384,9 +398,17 @@ func resolveSocks5UDPAddr(ctx context.Context, resolver apicommon.DNSResolver, a
 }
 
 func parseUDPAssociateDatagram(pkt []byte, resolver apicommon.DNSResolver) (*net.UDPAddr, []byte, error) {
+	return parseUDPAssociateDatagramFiltered(pkt, resolver, nil)
+}
+
+func parseUDPAssociateDatagramFiltered(pkt []byte, resolver apicommon.DNSResolver, filter datagramFilter) (*net.UDPAddr, []byte, error) {
 	datagram, err := parseSocks5UDPDatagram(pkt)
 	if err != nil {
 		return nil, nil, err
+	}
+	if filter != nil && !filter(datagram.Header[3:]) {
+		RejectByRules.Add(1)
+		return nil, nil, fmt.Errorf("destination %v is rejected by egress rules", datagram.Addr)
 	}
 	dstAddr, err := resolveSocks5UDPAddr(context.Background(), resolver, datagram.Addr)
 	if err != nil {
